@@ -94,7 +94,10 @@ def generate(seed, tier):
                         read["source"] = "stream"
         else:
             fault = {"kind": kind, "at": fault_rng.random()}
-    return {"cid": spec, "table": table, "reads": reads, "shared_cid": swarm.random() < 0.5,
+    limit = None
+    if fault is None and swarm.random() < 0.25:
+        limit = swarm.randint(0, len(table) + 1)  # rows beyond the validation limit are still data rows (and counted)
+    return {"limit": limit, "cid": spec, "table": table, "reads": reads, "shared_cid": swarm.random() < 0.5,
             "create_up_front": swarm.random() < 0.4, "fault": fault,
             "ods_features": sorted(swarm.sample(["colruns", "colstyle", "stored"], swarm.randint(0, 2)))}
 
@@ -202,8 +205,9 @@ def execute(scenario):
         data, intact_rows = stored_bytes(dict(scenario, fault=None))
     path = tabular.data_path(spec)
     table = scenario["table"]
+    limit = scenario.get("limit") if fault is None else None
     if fault is None:
-        model = tabular.RefReader(spec, tabular.as_read(spec, table))
+        model = tabular.RefReader(spec, tabular.as_read(spec, table), until=limit)
     elif fault["kind"] == "corrupt-member":
         # decided after the reads: damage to padding bits behind the end of the compressed stream is a legal no-op
         model = tabular.RefReader(spec, tabular.as_read(spec, table))
@@ -230,7 +234,7 @@ def execute(scenario):
             file_name = "<io>"
         else:
             source = path
-        return lib.ReadRun(cid, source, read["api"], read["mode"]), file_name
+        return lib.ReadRun(cid, source, read["api"], read["mode"], until=limit), file_name
 
     if up_front:
         # the three readers are constructed first on one Cid and consumed one after the other
@@ -379,6 +383,8 @@ def candidates(scenario):
             yield lib.with_value(scenario, ["reads", index, "source"], "path")
         if read["api"] != "Reader":
             yield lib.with_value(scenario, ["reads", index, "api"], "Reader")
+    if scenario.get("limit") is not None:
+        yield lib.with_value(scenario, ["limit"], None)
     if scenario.get("create_up_front"):
         yield lib.with_value(scenario, ["create_up_front"], False)
     if scenario.get("shared_cid"):
